@@ -282,7 +282,9 @@ def base_inventory(base: bytes):
         w = v.by_name[b"WAV "][-1]
         wavs = [v.text(int.from_bytes(w[4 * k:4 * k + 4], "little")) for k in range(512)]
         wavs = [x for x in wavs if x]
+    switch_names = [v.switch(k)[1] for k in range(256)] if v.swnm else []
     return {"locs": locs, "cuwps": cuwps, "cuwp_raw": {i: v.cuwps[i - 1] for i in cuwps},
+            "switch_names": [x for x in switch_names if x],
             "texts": texts, "wavs": wavs, "has_unis": b"UNIS" in v.by_name,
             "has_unix": b"UNIx" in v.by_name, "nloc": len(v.locs)}
 
@@ -334,6 +336,10 @@ def gen_scenario(rng: random.Random, base: bytes, kind="mixed"):
             pool["cuwps"].append(tw)
             twin_index = len(pool["cuwps"]) - 1
     for k in range(ns):
+        if inv.get("switch_names") and rng.random() < 0.3:
+            # referred to BY NAME only, with the exact name of a switch the map already has (used by a trigger or not)
+            pool["switches"].append([rng.choice(inv["switch_names"]), None])
+            continue
         pool["switches"].append([f"authored switch {k}" if rng.random() < 0.8 else None, None])
     # a switch without name and index is fine too (identity), keep at most one such
     def arg(codec, enum, field, widths):
